@@ -272,7 +272,8 @@ func (r *Run) applyContract(fr *Frame, st *State, instr ssa.Instruction, ct *Con
 	used := false
 	for _, cl := range ct.Ensures {
 		if r.prop != "" && ct.Kind == "func" && !hasProp(ct.clauseProps(cl), r.prop) {
-			continue
+			// relied upon here, discharged by the checks of the properties it is tagged with
+			r.foreign[name+"/ensures:"+cl.Label] = strings.Join(ct.clauseProps(cl), ",")
 		}
 		if mentionsLocal(cl.Expr) {
 			continue // a statement about the callee's locals says nothing to the caller
@@ -281,9 +282,6 @@ func (r *Run) applyContract(fr *Frame, st *State, instr ssa.Instruction, ct *Con
 		st.assume(r.evalBool(post, cl.Expr))
 	}
 	for _, cl := range ct.TrustedEnsures {
-		if r.prop != "" && ct.Kind == "func" && !hasProp(ct.clauseProps(cl), r.prop) {
-			continue
-		}
 		st.assume(r.evalBool(post, cl.Expr))
 		r.note("assumption", "%s: trusted postcondition %s (not checked against the body): %s", name, cl.Label, cl.Expr)
 	}
